@@ -411,7 +411,7 @@ int main(int argc, char **argv) {
         {.name = "M7c-three-join-all-callers", .run = m7c, .bound_quick = 1, .bound_thorough = 1}, /* bound 2 exceeds 400000 executions */
         {.name = "M10-redundant-library-init-while-thread-parked", .run = m10, .bound_quick = 2, .bound_thorough = 3},
         {.name = "M11-many-outstanding-participants", .run = m11, .bound_quick = 1, .bound_thorough = 1, .horizon = 8000},
-        {.name = "M7-two-join-all-callers", .run = m7, .bound_quick = 2, .bound_thorough = 3},
+        {.name = "M7-two-join-all-callers", .run = m7, .bound_quick = 2, .bound_thorough = 2}, /* bound 3 exceeds 400000 executions */
         {.name = "J1-joinable-at-exit", .run = j1, .bound_quick = 3, .bound_thorough = 5},
         {.name = "J3-refused-self-join-then-join", .run = j3, .bound_quick = 3, .bound_thorough = 5},
         {.name = "J4-handle-reused-refused-relaunch", .run = j4, .bound_quick = 2, .bound_thorough = 4},
